@@ -134,9 +134,6 @@ from . import symh5  # noqa: E402
 h5py_proxy = symh5.h5py
 path_proxy = symh5.Path
 os_proxy = symh5.os_mod
-GaussianMixtureStub = _Missing('GaussianMixture')
-MultivariateNormalStub = _Missing('multivariate_normal')
-minimize_stub = _Missing('minimize')
 dpotrf_stub = _Missing('dpotrf')
 dpotri_stub = _Missing('dpotri')
 MLPRegressorStub = _Missing('MLPRegressor')
@@ -157,3 +154,162 @@ class FrozenUniform(object):
 
 def uniform_stub(loc=0, scale=1):
     return FrozenUniform(loc, scale)
+
+
+# ---------------------------------------------------------------------------
+# bound-level stubs (Union / NautilusBound harnesses)
+# ---------------------------------------------------------------------------
+
+_MEMBER_CLASSES = {}
+
+
+def member_class(pkg):
+    """Member bound (Ellipsoid look-alike) with a contract instead of a
+    shape: contains is an uninterpreted predicate, compute(points) returns a
+    member that contains every construction point (the enclosure part of C07,
+    proved on the real Ellipsoid) and raises ValueError like the real one
+    when there are not more points than dimensions; sample(n) returns n fresh
+    points it contains; log_v is a real."""
+    key = id(pkg)
+    if key in _MEMBER_CLASSES:
+        return _MEMBER_CLASSES[key]
+    Base = pkg.basic.Ellipsoid
+
+    class MemberStub(Base):
+        next_id = 0
+        created = []
+
+        def __init__(self, n_dim, rng=None):
+            cls = type(self)
+            self.mid = cls.next_id
+            cls.next_id += 1
+            cls.created.append(self)
+            self.n_dim = n_dim
+            self.rng = rng
+            W = _W()
+            self.lv = W.real('lv_%d' % self.mid)
+            np = W.np
+            self.c = np.array([W.real('mc_%d_%d' % (self.mid, i))
+                               for i in range(n_dim)], dtype=float)
+            # the matrix only feeds the (stubbed) overlap test: diagonal,
+            # positive definite
+            diag = [W.real('mA_%d_%d' % (self.mid, i)) for i in range(n_dim)]
+            for x in diag:
+                W.assume(x > 0)
+            self.A = np.array([[diag[i] if i == j else 0.0
+                                for j in range(n_dim)]
+                               for i in range(n_dim)], dtype=float)
+            self.sampled = 0
+
+        @classmethod
+        def new_path(cls):
+            cls.next_id = 0
+            cls.created = []
+
+        @classmethod
+        def compute(cls, points, enlarge_per_dim=1.1, rng=None):
+            if enlarge_per_dim < 1.0:
+                raise ValueError("The 'enlarge_per_dim' factor cannot be "
+                                 "smaller than unity.")
+            if not points.shape[0] > points.shape[1]:
+                raise ValueError('Number of points must be larger than '
+                                 'number dimensions.')
+            b = cls(points.shape[1], rng=rng)
+            b.built_from = points
+            W = _W()
+            for k in range(len(points)):
+                W.assume(b._contains1(points[k]))
+            return b
+
+        def _contains1(self, row):
+            row = [row[i] for i in range(self.n_dim)]
+            return _W().uf('mem%d' % self.mid, row, 'bool')
+
+        def contains(self, points):
+            np = _W().np
+            points = np.asarray(points)
+            if points.ndim == 1:
+                return self._contains1(points)
+            out = [self._contains1(points[k]) for k in range(len(points))]
+            return np.array(out, dtype=bool) if out else \
+                np.zeros(0, dtype=bool)
+
+        def transform(self, points, inverse=False):
+            W = _W()
+            np = W.np
+            n = len(points)
+            rows = [[W.fresh('tr%d' % self.mid) for _ in range(self.n_dim)]
+                    for _ in range(n)]
+            return np.array(rows, dtype=float) if rows else \
+                np.zeros((0, self.n_dim))
+
+        def sample(self, n_points=100):
+            W = _W()
+            np = W.np
+            rows = []
+            for k in range(int(n_points)):
+                p = [W.fresh('ms%d' % self.mid) for _ in range(self.n_dim)]
+                W.assume(self._contains1(p))
+                rows.append(p)
+            self.sampled += int(n_points)
+            return np.array(rows, dtype=float) if rows else \
+                np.zeros((0, self.n_dim))
+
+        @property
+        def log_v(self):
+            return self.lv
+
+        def reset(self, rng=None):
+            if rng is not None:
+                self.rng = rng
+
+    _MEMBER_CLASSES[key] = MemberStub
+    return MemberStub
+
+
+class _GMM(object):
+    """sklearn GaussianMixture stand-in: the fit is an opaque token; scores
+    come from multivariate_normal.logpdf (havoc)."""
+
+    def __init__(self, n_components=1, n_init=1, random_state=None, **kw):
+        self.n_components = n_components
+        self.random_state = random_state
+        W = _W()
+        W.gmm_random_states = getattr(W, 'gmm_random_states', []) + \
+            [random_state]
+
+    def fit(self, points):
+        W = _W()
+        np = W.np
+        k = self.n_components
+        self.means_ = [('mean', i) for i in range(k)]
+        self.covariances_ = [('cov', i) for i in range(k)]
+        ws = [W.fresh('gmm_w') for _ in range(k)]
+        for w in ws:
+            W.assume(w > 0)
+        self.weights_ = np.array(ws, dtype=float)
+        return self
+
+
+class _MVN(object):
+    @staticmethod
+    def logpdf(points, mean=None, cov=None):
+        W = _W()
+        np = W.np
+        n = len(points)
+        return np.array([W.fresh('gmm_score') for _ in range(n)],
+                        dtype=float) if n else np.zeros(0)
+
+
+class _MinResult(object):
+    def __init__(self, fun):
+        self.fun = fun
+
+
+def _minimize(fun, x0, bounds=None, **kw):
+    return _MinResult(_W().fresh('min_fun'))
+
+
+GaussianMixtureStub = _GMM
+MultivariateNormalStub = _MVN
+minimize_stub = _minimize
